@@ -14,7 +14,7 @@ WORKERS = 4
 EXHAUSTIVE = {'quick': True, 'thorough': True}
 RULE = ('complete enumeration: every subset of {plain, @bash, @fish, @zsh, @pwsh} command definitions (32) x name in '
         '{X, PATH, DIRECTORY} x reference position {top level, tail of a word, through another definition, through two '
-        'definitions under four different pairs of names} x 4 target shells = 2688 grammars, each definition with its own marker command `echo M_<name>_<flavour>`; plus plain '
+        'definitions under four different pairs of names} and under ||, ... and a within-word ||} x 4 target shells = 3840 grammars, each definition with its own marker command `echo M_<name>_<flavour>`; plus plain '
         'non-command definitions of PATH / DIRECTORY. The rule of the statement (X@S, else plain, else built-in for '
         'PATH/DIRECTORY, else any word) is observed (1) on the command symbols of the automaton compiled by the real '
         'pipeline, (2) on the _<cmd>_cmd_N bodies of the script the real binary emits for the target (chosen marker '
@@ -23,7 +23,7 @@ RULE = ('complete enumeration: every subset of {plain, @bash, @fish, @zsh, @pwsh
         'and the next word is reached). non-trivial = every case; distinct by (grammar, target)')
 ASSUMPTIONS = ['for fish / zsh / pwsh the built-in case is judged as "one command body that is none of the grammar\'s markers"',
                'zsh: definitions for zsh and built-ins are compadd-style commands, plain {{{ }}} definitions are stdout commands']
-MIN_EVALS = {'quick': 2600, 'thorough': 2600}
+MIN_EVALS = {'quick': 3800, 'thorough': 3800}
 FLAVOURS = ('plain', 'bash', 'fish', 'zsh', 'pwsh')
 NAMES = ('X', 'PATH', 'DIRECTORY')
 POSITIONS = ('top', 'word', 'via')
@@ -42,6 +42,12 @@ def build(name, subset, pos):
         stmts.append(call('cmd', seq(nt(name), lit('after'))))
     elif pos == 'word':
         stmts.append(call('cmd', seq(('word', (lit('pre='), nt(name))), lit('after'))))
+    elif pos == 'under-fallback':
+        stmts.append(call('cmd', seq(gast.fb(nt(name), lit('backup')), lit('after'))))
+    elif pos == 'under-repeat':
+        stmts.append(call('cmd', seq(gast.many(gast.alt(lit('k'), nt(name))), lit('after'))))
+    elif pos == 'under-fallback-in-word':
+        stmts.append(call('cmd', seq(('word', (lit('pre='), gast.fb(lit('v'), nt(name)))), lit('after'))))
     elif pos in VIA2:
         n1, n2 = VIA2[pos]
         stmts.append(call('cmd', seq(nt(n1), lit('after'))))
@@ -69,7 +75,7 @@ def all_cases():
     for name in NAMES:
         for k in range(len(FLAVOURS) + 1):
             for subset in itertools.combinations(FLAVOURS, k):
-                for pos in POSITIONS + tuple(VIA2):
+                for pos in POSITIONS + tuple(VIA2) + ('under-fallback', 'under-repeat', 'under-fallback-in-word'):
                     for target in common.SHELLS:
                         yield (name, subset, pos, target)
 
